@@ -1102,29 +1102,29 @@ Proof.
            cbn [f_pc pc_eqb]. right. exact Hq.
     + (* Add *)
       destruct Hfr as (_ & c & Hc & _). rewrite Hc in H. inversion H; subst; clear H. split; [eapply Hupd; reflexivity|].
-      intros q c' Hq Hnq. exfalso. eapply Hkeep; eauto; simpl; congruence.
+      intros q c' Hq Hnq. exfalso. eapply Hkeep; [| | | exact Hq | exact Hnq]; simpl; congruence.
     + (* LoadOrStore *)
       destruct Hfr as (_ & c & Hc & _ & _ & _ & Hpub). destruct (lookup m (f_ty fr)) as [f|].
       * inversion H; subst; clear H. split; [eapply Hsame; reflexivity|].
         intros q c' Hq Hnq Hn Hp. rewrite ret_owned in Hnq. rewrite owned_frames_cons in Hq. rewrite Epc in Hq.
         destruct Hq as [<-|Hq]; [|contradiction]. simpl in Hn. congruence.
       * rewrite Hc in H. inversion H; subst; clear H. split; [eapply Hupd; reflexivity|].
-        intros q c' Hq Hnq. exfalso. eapply Hkeep; eauto; simpl; congruence.
+        intros q c' Hq Hnq. exfalso. eapply Hkeep; [| | | exact Hq | exact Hnq]; simpl; congruence.
     + (* generating *)
       destruct (is_bad tt (f_ty fr)); [|destruct (f_todo fr) as [|k todo]].
       * inversion H; subst; clear H. split; [eapply Hsame; reflexivity|].
-        intros q c' Hq Hnq. exfalso. eapply Hkeep; eauto; simpl; congruence.
+        intros q c' Hq Hnq. exfalso. eapply Hkeep; [| | | exact Hq | exact Hnq]; simpl; congruence.
       * inversion H; subst; clear H. split; [eapply Hsame; reflexivity|].
-        intros q c' Hq Hnq. exfalso. eapply Hkeep; eauto; simpl; congruence.
+        intros q c' Hq Hnq. exfalso. eapply Hkeep; [| | | exact Hq | exact Hnq]; simpl; congruence.
       * inversion H; subst; clear H. split; [eapply Hsame; reflexivity|].
         intros q c' Hq Hnq. exfalso. apply Hnq. cbn [th_stack with_stack].
         rewrite (owned_frames_cons (mkFrame k 0 PLoad [] [])). exact Hq.
     + (* the plain write *)
       destruct Hfr as ((c & Hc & _) & _). rewrite Hc in H. inversion H; subst; clear H. split; [eapply Hupd; reflexivity|].
-      intros q c' Hq Hnq. exfalso. eapply Hkeep; eauto; simpl; congruence.
+      intros q c' Hq Hnq. exfalso. eapply Hkeep; [| | | exact Hq | exact Hnq]; simpl; congruence.
     + (* Done *)
       destruct Hfr as (c & Hc & _). rewrite Hc in H. inversion H; subst; clear H. split; [eapply Hupd; reflexivity|].
-      intros q c' Hq Hnq. exfalso. eapply Hkeep; eauto; simpl; congruence.
+      intros q c' Hq Hnq. exfalso. eapply Hkeep; [| | | exact Hq | exact Hnq]; simpl; congruence.
     + (* Store *)
       destruct Hfr as (c & Hc & _ & Hcnt & (g & Hvar & _) & Hpub). rewrite Hc in H. rewrite Hvar in H.
       inversion H; subst; clear H. split; [eapply Hsame; reflexivity|].
@@ -1133,10 +1133,10 @@ Proof.
       repeat split; auto. congruence.
     + (* Delete *)
       inversion H; subst; clear H. split; [eapply Hsame; reflexivity|].
-      intros q c' Hq Hnq. exfalso. eapply Hkeep; eauto; simpl; congruence.
+      intros q c' Hq Hnq. exfalso. eapply Hkeep; [| | | exact Hq | exact Hnq]; simpl; congruence.
     + (* the write of the error function *)
       destruct Hfr as (c & Hc & _). rewrite Hc in H. inversion H; subst; clear H. split; [eapply Hupd; reflexivity|].
-      intros q c' Hq Hnq. exfalso. eapply Hkeep; eauto; simpl; congruence.
+      intros q c' Hq Hnq. exfalso. eapply Hkeep; [| | | exact Hq | exact Hnq]; simpl; congruence.
     + (* Done on the failure path: the cell is given up, finished *)
       destruct Hfr as (c & Hc & _ & Hcnt & Hvar & Hpub). rewrite Hc in H. inversion H; subst; clear H.
       split; [eapply Hupd; reflexivity|].
@@ -1203,11 +1203,11 @@ Proof.
     + left. unfold th_finished. destruct (th_cur th); [discriminate|]. destruct (th_jobs th) as [|[]]; [reflexivity|discriminate].
     + destruct (thread_ok_nostack_inv _ _ _ _ _ Hth E Ew) as (t & v & _ & Hw & _). rewrite Ew in Hw.
       inversion Hw as [|? ? Hwi _]; subst. destruct wi as [|f v0|p v0]; [discriminate| |].
-      * destruct f as [g|p].
+      * destruct f as [g|p|]; [| |discriminate].
         -- destruct v0. destruct (nth_error heap g); discriminate.
         -- destruct Hwi as (t1 & c & Hc & _ & Hp). rewrite Hc in H. right. exists p, v0, w, c.
            destruct (N.eqb_spec (ph_cnt c) 0); [discriminate|]. auto.
-      * destruct Hwi as (c & Hc & _). rewrite Hc in H. destruct (ph_var c); discriminate.
+      * destruct Hwi as (c & Hc & _). rewrite Hc in H. destruct (ph_var c) as [[]|]; discriminate.
   - exfalso. pose proof (thread_ok_frames _ _ _ Hth) as Hf. rewrite E in Hf. inversion Hf as [|? ? Hfr _]; subst.
     unfold frame_ok in Hfr. destruct (f_pc fr).
     + destruct (lookup m (f_ty fr)); discriminate.
@@ -1217,6 +1217,9 @@ Proof.
     + destruct Hfr as ((c & Hc & _) & _). rewrite Hc in H. discriminate.
     + destruct Hfr as (c & Hc & _). rewrite Hc in H. discriminate.
     + destruct Hfr as (c & Hc & _). rewrite Hc in H. destruct (ph_var c); discriminate.
+    + discriminate.
+    + destruct Hfr as (c & Hc & _). rewrite Hc in H. discriminate.
+    + destruct Hfr as (c & Hc & _). rewrite Hc in H. discriminate.
 Qed.
 
 Lemma stuck_none s i : stuck tt s = true -> (i < length (st_threads s))%nat -> step tt s i = None.
@@ -1327,7 +1330,7 @@ Proof.
     + destruct (thread_ok_nostack_inv _ _ _ _ _ Hth E Ew) as (t & v1 & _ & Hw & _). rewrite Ew in Hw.
       inversion Hw as [|? ? Hwi _]; subst. destruct wi as [t0 v0|f v0|p0 v0].
       * inversion H; subst; clear H. simpl in Hin. rewrite Ew in Hin. auto.
-      * destruct f as [g|p0].
+      * destruct f as [g|p0|]; [| |inversion H; subst; clear H; destruct (in_panic_read _ _ _ Hin)].
         -- destruct v0 as [subs]. destruct (nth_error heap g); inversion H; subst; clear H; simpl in Hin.
            ++ apply in_app_or in Hin. destruct Hin as [Hin|Hin]; [destruct (in_expand_read _ _ _ _ Hin)|]. left; right; exact Hin.
            ++ destruct (in_panic_read _ _ _ Hin).
@@ -1336,12 +1339,11 @@ Proof.
            destruct Hin as [Hx|Hin]; [|left; right; exact Hin]. inversion Hx; subst. right. split; auto.
            exists c. split; auto. split; auto. split; auto.
            destruct (Hcells _ _ Hc) as (_ & Hc2 & _). intro Hv. specialize (Hc2 Hpub Hv). lia.
-      * destruct (nth_error phs p0) as [c|]; [|discriminate]. destruct (ph_var c); inversion H; subst; clear H; simpl in Hin.
-        -- destruct Hin as [Hx|Hin]; [discriminate|]. left; right; exact Hin.
-        -- destruct (in_panic_read _ _ _ Hin).
-  - assert (G : th_work th' = th_work th \/ (exists f, th' = ret th rest f) \/ th' = panic th).
+      * destruct (nth_error phs p0) as [c|]; [|discriminate]. destruct (ph_var c) as [[]|]; inversion H; subst; clear H; simpl in Hin;
+          try (destruct (in_panic_read _ _ _ Hin)); destruct Hin as [Hx|Hin]; try discriminate; left; right; exact Hin.
+  - assert (G : th_work th' = th_work th \/ (exists f, th' = ret th rest f) \/ (exists th2, th' = panic th2)).
     { tstep_cases H; eauto. }
-    destruct G as [G|[(f & ->)| ->]].
+    destruct G as [G|[(f & ->)| (th2 & ->)]].
     + rewrite G in Hin. auto.
     + left. eapply in_ret_read; eauto.
     + destruct (in_panic_read _ _ _ Hin).
@@ -1350,7 +1352,7 @@ Qed.
 (* a frame about to call Done has just made the plain write *)
 Lemma tstep_log_write m phs heap th th' sh fr' rest' :
   thread_ok phs heap th -> tstep tt m phs heap th = Some (th', sh) ->
-  th_stack th' = fr' :: rest' -> f_pc fr' = PDone -> sh_ev sh = [EWrite (f_ph fr')].
+  th_stack th' = fr' :: rest' -> f_pc fr' = PDone \/ f_pc fr' = PDErr -> sh_ev sh = [EWrite (f_ph fr')].
 Proof.
   intros Hth H E1 E2.
   assert (Hret : forall rest f, th_stack th = hd (mkFrame 0 0 PLoad [] []) (th_stack th) :: rest ->
@@ -1359,16 +1361,15 @@ Proof.
     - destruct (th_work th) as [|[] ?]; discriminate.
     - simpl in Er. inversion Er; subst. simpl in E2.
       destruct (thread_ok_stack_inv _ _ _ _ _ Hth Es) as (t0 & v0 & t1 & v1 & w1 & _ & _ & Hs & _).
-      simpl in Hs. destruct Hs as (_ & Hpc & _). congruence. }
+      simpl in Hs. destruct Hs as (_ & Hpc & _). destruct E2; congruence. }
   unfold tstep in H. destruct (th_stack th) as [|fr rest] eqn:E.
   - tstep_cases H; simpl in E1; try discriminate; try congruence; try (rewrite panic_stack in E1; discriminate).
-    inversion E1; subst. discriminate.
+    inversion E1; subst. destruct E2; discriminate.
   - simpl in Hret.
     destruct (f_pc fr) eqn:Epc; tstep_cases H; simpl in E1;
       try (exfalso; eapply Hret; eauto; fail);
       try (rewrite panic_stack in E1; discriminate);
-      inversion E1; subst; simpl in E2; try discriminate; try congruence.
-    reflexivity.
+      inversion E1; subst; simpl in E2; try (destruct E2; discriminate); try (destruct E2; congruence); reflexivity.
 Qed.
 
 (* a cell becomes finished only by the Done of the frame that owns it *)
@@ -1376,7 +1377,7 @@ Lemma tstep_log_stable m phs heap th th' sh q c' :
   thread_ok phs heap th -> tstep tt m phs heap th = Some (th', sh) ->
   nth_error (sh_phs sh) q = Some c' -> stable c' ->
   (exists c, nth_error phs q = Some c /\ stable c) \/
-  (sh_ev sh = [EDone q] /\ exists fr rest, th_stack th = fr :: rest /\ f_pc fr = PDone /\ f_ph fr = q).
+  (sh_ev sh = [EDone q] /\ exists fr rest, th_stack th = fr :: rest /\ (f_pc fr = PDone \/ f_pc fr = PDErr) /\ f_ph fr = q).
 Proof.
   intros Hth H Hq Hs.
   assert (Hupd : forall p c1, ~ stable c1 -> nth_error (upd phs p c1) q = Some c' ->
@@ -1405,14 +1406,21 @@ Proof.
       left. eapply Hupd; eauto. intros (_ & Hz & _). simpl in Hz. lia.
     + destruct Hfr as (c & Hc & _). rewrite Hc in H. inversion H; subst; clear H. simpl in Hq.
       destruct (Nat.eq_dec (f_ph fr) q) as [<-|Hne].
-      * right. split; auto. eauto.
+      * right. split; auto. exists fr, rest. auto.
       * left. rewrite nth_error_upd_neq in Hq by auto. eauto.
     + left. tstep_cases H; simpl in Hq; eauto.
+    + left. inversion H; subst; clear H. simpl in Hq. eauto.
+    + destruct Hfr as (c & Hc & _ & Hcnt & _). rewrite Hc in H. inversion H; subst; clear H. simpl in Hq.
+      left. eapply Hupd; eauto. intros (_ & Hz & _). simpl in Hz. lia.
+    + destruct Hfr as (c & Hc & _). rewrite Hc in H. inversion H; subst; clear H. simpl in Hq.
+      destruct (Nat.eq_dec (f_ph fr) q) as [<-|Hne].
+      * right. split; auto. exists fr, rest. auto.
+      * left. rewrite nth_error_upd_neq in Hq by auto. eauto.
 Qed.
 
 Record LogInv (s : state) : Prop := mkLogInv {
   li_ok : log_ok (st_log s);
-  li_done : forall i th fr rest, nth_error (st_threads s) i = Some th -> th_stack th = fr :: rest -> f_pc fr = PDone ->
+  li_done : forall i th fr rest, nth_error (st_threads s) i = Some th -> th_stack th = fr :: rest -> f_pc fr = PDone \/ f_pc fr = PDErr ->
             In (i, EWrite (f_ph fr)) (st_log s);
   li_stable : forall p c, nth_error (st_phs s) p = Some c -> stable c -> hb_chain p (st_log s);
   li_wait : forall i th p v, nth_error (st_threads s) i = Some th -> In (WRead p v) (th_work th) -> waited i p (st_log s)
@@ -1494,39 +1502,87 @@ Qed.
 (* ------------------------------------------------------------------------- *)
 (* With every type supported no call ends in a panic *)
 
-Lemma panic_unreachable m phs heap th th' sh :
-  supported -> thread_ok phs heap th -> tstep tt m phs heap th = Some (th', sh) ->
-  forall jr, In jr (th_done th') -> In jr (th_done th) \/ snd jr <> RPanic.
+Definition clean_pc (c : pc) : Prop := match c with PDel | PWErr | PDErr => False | _ => True end.
+Definition cells_noerr (phs : list ph) : Prop := forall q c, nth_error phs q = Some c -> ph_var c <> Some FErr.
+Definition frames_clean (th : thread) : Prop := forall fr, In fr (th_stack th) -> clean_pc (f_pc fr).
+
+Lemma ret_frames_clean th rest f fr0 :
+  (forall fr, In fr rest -> clean_pc (f_pc fr)) -> In fr0 (th_stack (ret th rest f)) -> clean_pc (f_pc fr0).
 Proof.
-  intros Hsup Hth H jr Hin. unfold tstep in H. destruct (th_stack th) as [|fr rest] eqn:E.
-  - destruct (th_work th) as [|wi w] eqn:Ew.
-    + destruct (th_cur th) as [j|]; [|destruct (th_jobs th) as [|[] ?]; [discriminate|]]; inversion H; subst; clear H; simpl in Hin; auto.
-      apply in_app_or in Hin. destruct Hin as [Hin|[<-|[]]]; auto. right; simpl; discriminate.
-    + destruct (thread_ok_nostack_inv _ _ _ _ _ Hth E Ew) as (t & v & _ & Hw & _). rewrite Ew in Hw.
-      inversion Hw as [|? ? Hwi _]; subst. destruct wi as [t0 v0|f v0|p v0].
-      * inversion H; subst; clear H. auto.
-      * destruct f as [g|p].
-        -- destruct v0 as [subs]. destruct Hwi as (t1 & c & Hg & _). rewrite Hg in H. inversion H; subst; clear H. auto.
-        -- destruct (nth_error phs p) as [c|]; [|discriminate]. destruct (ph_cnt c =? 0); inversion H; subst; clear H. auto.
-      * destruct Hwi as (c & Hc & _ & _ & Hv). rewrite Hc in H. destruct (ph_var c) as [f|]; [|congruence].
-        inversion H; subst; clear H. auto.
-  - assert (Hret : forall rest f, th_done (ret th rest f) = th_done th).
-    { intros r f. unfold ret. destruct r; [destruct (th_work th) as [|[] ?]|]; reflexivity. }
-    pose proof (thread_ok_frames _ _ _ Hth) as Hf. rewrite E in Hf. inversion Hf as [|? ? Hfr _]; subst.
-    unfold frame_ok in Hfr. destruct (f_pc fr) eqn:Epc.
-    + destruct (lookup m (f_ty fr)); inversion H; subst; clear H; [rewrite Hret in Hin|]; auto.
-    + destruct (nth_error phs (f_ph fr)); inversion H; subst; clear H; auto.
-    + destruct (lookup m (f_ty fr)); [inversion H; subst; clear H; rewrite Hret in Hin; auto|].
-      destruct (nth_error phs (f_ph fr)); inversion H; subst; clear H; auto.
-    + rewrite (Hsup (f_ty fr)) in H. destruct (f_todo fr); inversion H; subst; clear H; auto.
-    + destruct (nth_error phs (f_ph fr)); inversion H; subst; clear H; auto.
-    + destruct (nth_error phs (f_ph fr)); inversion H; subst; clear H; auto.
-    + destruct Hfr as (c & Hc & _ & _ & Hv & _). rewrite Hc in H. destruct (ph_var c) as [f|]; [|congruence].
-      inversion H; subst; clear H. rewrite Hret in Hin. auto.
+  intros Hc. unfold ret. destruct rest as [|parent rest'].
+  - destruct (th_work th) as [|[] ?]; simpl; contradiction.
+  - simpl. intros [<-|Hin]; simpl; [apply Hc; left; reflexivity | apply Hc; right; exact Hin].
 Qed.
 
-Definition NoPanic (s : state) : Prop :=
-  forall th jr, In th (st_threads s) -> In jr (th_done th) -> snd jr <> RPanic.
+Lemma panic_unreachable m phs heap th th' sh :
+  supported -> thread_ok phs heap th -> cells_noerr phs -> frames_clean th ->
+  tstep tt m phs heap th = Some (th', sh) ->
+  (forall jr, In jr (th_done th') -> In jr (th_done th) \/ snd jr <> RPanic) /\
+  cells_noerr (sh_phs sh) /\ frames_clean th'.
+Proof.
+  intros Hsup Hth Hne Hcl H.
+  assert (Hupd : forall p c1, ph_var c1 <> Some FErr -> cells_noerr (upd phs p c1)).
+  { intros p c1 Hv q c Hq. destruct (Nat.eq_dec p q) as [<-|Hn].
+    - destruct (Nat.lt_ge_cases p (length phs)) as [Hl|Hl].
+      + rewrite nth_error_upd_eq in Hq by exact Hl. inversion Hq; subst. exact Hv.
+      + apply nth_error_Some_lt in Hq. rewrite upd_length in Hq. lia.
+    - rewrite nth_error_upd_neq in Hq by auto. eapply Hne; eauto. }
+  assert (Hnil : forall th2, th_stack th2 = [] -> frames_clean th2).
+  { intros th2 E fr Hin. rewrite E in Hin. contradiction. }
+  unfold tstep in H. destruct (th_stack th) as [|fr rest] eqn:E.
+  - destruct (th_work th) as [|wi w] eqn:Ew.
+    + destruct (th_cur th) as [j|]; [|destruct (th_jobs th) as [|[] ?]; [discriminate|]]; inversion H; subst; clear H; simpl.
+      * split; [|split; auto]. intros jr Hin. apply in_app_or in Hin. destruct Hin as [Hin|[<-|[]]]; auto. right; simpl; discriminate.
+      * split; auto.
+    + destruct (thread_ok_nostack_inv _ _ _ _ _ Hth E Ew) as (t & v & _ & Hw & _). rewrite Ew in Hw.
+      inversion Hw as [|? ? Hwi _]; subst. destruct wi as [t0 v0|f v0|p v0].
+      * inversion H; subst; clear H. simpl. split; auto. split; auto. intros fr [<-|[]]. simpl. exact I.
+      * destruct f as [g|p|]; [| |destruct Hwi as [t1 []]].
+        -- destruct v0 as [subs]. destruct Hwi as (t1 & c & Hg & _). rewrite Hg in H. inversion H; subst; clear H. simpl.
+           split; [auto|]. split; [auto|]. apply Hnil. reflexivity.
+        -- destruct (nth_error phs p) as [c|]; [|discriminate]. destruct (ph_cnt c =? 0); inversion H; subst; clear H. simpl.
+           split; [auto|]. split; [auto|]. apply Hnil. simpl. exact E.
+      * destruct Hwi as (c & Hc & _ & _ & Hv). rewrite Hc in H. destruct (ph_var c) as [f|] eqn:Ev; [|congruence].
+        destruct f as [g|p0|]; [| |exfalso; eapply Hne; eauto]; inversion H; subst; clear H; simpl;
+          (split; [auto|]; split; [auto|]; apply Hnil; simpl; exact E).
+  - assert (Hret : forall rest f, th_done (ret th rest f) = th_done th).
+    { intros r f. unfold ret. destruct r; [destruct (th_work th) as [|[] ?]|]; reflexivity. }
+    assert (Hrest : forall fr0, In fr0 rest -> clean_pc (f_pc fr0)).
+    { intros fr0 Hin. apply Hcl. rewrite E. right; exact Hin. }
+    assert (Htop : forall fr', clean_pc (f_pc fr') -> frames_clean (with_stack th (fr' :: rest))).
+    { intros fr' Hc fr0 [<-|Hin]; auto. }
+    assert (Hfrc : clean_pc (f_pc fr)) by (apply Hcl; rewrite E; left; reflexivity).
+    pose proof (thread_ok_frames _ _ _ Hth) as Hf. rewrite E in Hf. inversion Hf as [|? ? Hfr _]; subst.
+    unfold frame_ok in Hfr. destruct (f_pc fr) eqn:Epc; try contradiction.
+    + destruct (lookup m (f_ty fr)); inversion H; subst; clear H; simpl.
+      * rewrite Hret. split; [auto|]. split; [auto|]. intros fr0 Hin. eapply ret_frames_clean; eauto.
+      * split; [auto|]. split; [|apply Htop; exact I].
+        intros q c Hq. destruct (Nat.lt_ge_cases q (length phs)) as [Hl|Hl].
+        -- rewrite nth_error_app1 in Hq by exact Hl. eapply Hne; eauto.
+        -- rewrite nth_error_app2 in Hq by exact Hl. destruct (q - length phs)%nat as [|[|k]]; simpl in Hq; try discriminate.
+           inversion Hq; subst. simpl. discriminate.
+    + destruct Hfr as (_ & c & Hc & _ & _ & Hv & _). rewrite Hc in H. inversion H; subst; clear H; simpl.
+      split; [auto|]. split; [apply Hupd; simpl; congruence | apply Htop; exact I].
+    + destruct Hfr as (_ & c & Hc & _ & _ & Hv & _). destruct (lookup m (f_ty fr)).
+      * inversion H; subst; clear H; simpl. rewrite Hret. split; [auto|]. split; [auto|]. intros fr0 Hin. eapply ret_frames_clean; eauto.
+      * rewrite Hc in H. inversion H; subst; clear H; simpl.
+        split; [auto|]. split; [apply Hupd; simpl; congruence | apply Htop; exact I].
+    + rewrite (Hsup (f_ty fr)) in H. destruct (f_todo fr); inversion H; subst; clear H; simpl.
+      * split; [auto|]. split; [auto|]. apply Htop; exact I.
+      * split; [auto|]. split; [auto|]. intros fr0 [<-|Hin]; [exact I|]. apply Hcl. rewrite E. exact Hin.
+    + destruct Hfr as ((c & Hc & _) & _). rewrite Hc in H. inversion H; subst; clear H; simpl.
+      split; [auto|]. split; [apply Hupd; simpl; discriminate | apply Htop; exact I].
+    + destruct Hfr as (c & Hc & _ & _ & (g & Hv & _) & _). rewrite Hc in H. inversion H; subst; clear H; simpl.
+      split; [auto|]. split; [apply Hupd; simpl; congruence | apply Htop; exact I].
+    + destruct Hfr as (c & Hc & _ & _ & (g & Hv & _) & _). rewrite Hc in H. rewrite Hv in H. inversion H; subst; clear H; simpl.
+      rewrite Hret. split; [auto|]. split; [auto|]. intros fr0 Hin. eapply ret_frames_clean; eauto.
+Qed.
+
+Record NoPanic (s : state) : Prop := mkNoPanic {
+  np_results : forall th jr, In th (st_threads s) -> In jr (th_done th) -> snd jr <> RPanic;
+  np_cells : cells_noerr (st_phs s);
+  np_frames : forall th, In th (st_threads s) -> frames_clean th
+}.
 
 Lemma in_upd {A} (l : list A) i x y : In y (upd l i x) -> y = x \/ In y l.
 Proof.
@@ -1537,14 +1593,17 @@ Qed.
 
 Theorem step_NoPanic s i s' : supported -> Inv s -> NoPanic s -> step tt s i = Some s' -> NoPanic s'.
 Proof.
-  intros Hsup [_ _ _ Ht _] HN H. unfold step in H.
+  intros Hsup [_ _ _ Ht _] [N1 N2 N3] H. unfold step in H.
   destruct (nth_error (st_threads s) i) as [th|] eqn:Ei; [|discriminate].
   destruct (tstep tt (st_map s) (st_phs s) (st_heap s) th) as [[th' sh]|] eqn:Est; [|discriminate].
-  inversion H; subst; clear H. intros th2 jr Hin Hjr. simpl in Hin.
+  inversion H; subst; clear H.
   pose proof (nth_error_In _ _ Ei) as Hth. rewrite Forall_forall in Ht.
-  destruct (in_upd _ _ _ _ Hin) as [->|Hin'].
-  - destruct (panic_unreachable _ _ _ _ _ _ Hsup (Ht _ Hth) Est _ Hjr) as [Hold|Hne]; auto. eapply HN; eauto.
-  - eapply HN; eauto.
+  destruct (panic_unreachable _ _ _ _ _ _ Hsup (Ht _ Hth) N2 (N3 _ Hth) Est) as (P1 & P2 & P3).
+  constructor; simpl; auto.
+  - intros th2 jr Hin Hjr. destruct (in_upd _ _ _ _ Hin) as [->|Hin'].
+    + destruct (P1 _ Hjr) as [Hold|Hne]; auto. eapply N1; eauto.
+    + eapply N1; eauto.
+  - intros th2 Hin. destruct (in_upd _ _ _ _ Hin) as [->|Hin']; auto.
 Qed.
 
 Theorem reachable_NoPanic jobs sched : supported -> NoPanic (run tt (init jobs) sched).
@@ -1553,8 +1612,10 @@ Proof.
   assert (G : forall s, Inv s -> NoPanic s -> NoPanic (run tt s sched)).
   { induction sched as [|i r IH]; intros s HI HN; simpl; auto.
     destruct (step tt s i) eqn:E; auto. apply IH; [eapply step_Inv | eapply step_NoPanic]; eauto. }
-  apply G; [apply init_Inv|]. intros th jr Hin Hjr. simpl in Hin. apply in_map_iff in Hin.
-  destruct Hin as (js & <- & _). contradiction.
+  apply G; [apply init_Inv|]. constructor; simpl.
+  - intros th jr Hin Hjr. apply in_map_iff in Hin. destruct Hin as (js & <- & _). contradiction.
+  - intros [|q] c Hq; discriminate.
+  - intros th Hin fr Hfr. apply in_map_iff in Hin. destruct Hin as (js & <- & _). contradiction.
 Qed.
 
 (* ------------------------------------------------------------------------- *)
@@ -1565,13 +1626,14 @@ Theorem supported_results jobs sched th jr :
   exists kinds, snd jr = ROk (ref tt (snd (fst jr)) (fst (fst jr))) kinds.
 Proof.
   intros Hsup Hth Hjr. destruct (results_match jobs sched th jr Hth Hjr) as [Hp|H]; auto.
-  exfalso. eapply reachable_NoPanic; eauto.
+  exfalso. eapply (np_results _ (reachable_NoPanic jobs sched Hsup)); eauto.
 Qed.
 
-Theorem supported_no_deadlock jobs sched :
-  supported -> stuck tt (run tt (init jobs) sched) = true -> all_finished (run tt (init jobs) sched) = true.
+(* every call returns: when nothing can move any more, everybody is finished - for every type table *)
+Theorem no_deadlock jobs sched :
+  stuck tt (run tt (init jobs) sched) = true -> all_finished (run tt (init jobs) sched) = true.
 Proof.
-  intros Hsup. apply stuck_finished; [apply reachable_Inv | apply reachable_SupInv; exact Hsup].
+  apply stuck_finished; [apply reachable_Inv | apply reachable_SupInv].
 Qed.
 
 Theorem finished_all_jobs jobs sched th :
@@ -1589,7 +1651,271 @@ Theorem partial_property jobs sched :
 Proof.
   intros Hsup s. split; [apply no_race|]. split.
   - intros th jr. apply supported_results. exact Hsup.
-  - apply supported_no_deadlock. exact Hsup.
+  - apply no_deadlock.
+Qed.
+
+(* ------------------------------------------------------------------------- *)
+(* A call fails only if it really involves an unsupported type *)
+
+(* generating the function for t runs into an unsupported type *)
+Inductive gen_bad : ty -> Prop :=
+| gb_here t : is_bad tt t = true -> gen_bad t
+| gb_kid t c : In c (kidtypes tt t) -> gen_bad c -> gen_bad t.
+
+(* calling the function for u on the value meets (the function of) a type whose generation fails *)
+Inductive call_bad : ty -> val -> Prop :=
+| cb_kid u subs i v' c : In (SKid i, v') subs -> nth_error (kidtypes tt u) i = Some c ->
+                         gen_bad c \/ call_bad c v' -> call_bad u (V subs)
+| cb_dyn u subs t' v' : In (SDyn t', v') subs -> gen_bad t' \/ call_bad t' v' -> call_bad u (V subs).
+
+Definition job_bad (t : ty) (v : val) : Prop := gen_bad t \/ call_bad t v.
+
+Definition witem_bad (phs : list ph) (heap : list clo) (w : witem) : Prop :=
+  match w with
+  | WGet t v => job_bad t v
+  | WCall f v => exists u, typed phs heap f u /\ job_bad u v
+  | WRead p v => exists c, nth_error phs p = Some c /\ job_bad (ph_ty c) v
+  end.
+
+Definition is_cleanup (c : pc) : Prop := match c with PDel | PWErr | PDErr => True | _ => False end.
+
+Definition bad_thread (phs : list ph) (heap : list clo) (th : thread) : Prop :=
+  (forall jr, In jr (th_done th) -> snd jr = RPanic -> job_bad (fst (fst jr)) (snd (fst jr))) /\
+  match th_cur th with
+  | None => True
+  | Some (t, v) =>
+      (forall w, In w (th_work th) -> witem_bad phs heap w -> job_bad t v) /\
+      (forall fr, In fr (th_stack th) -> gen_bad (f_ty fr) -> job_bad t v) /\
+      (forall fr, In fr (th_stack th) -> is_cleanup (f_pc fr) -> gen_bad (f_ty fr))
+  end.
+
+Definition bad_cells (phs : list ph) : Prop := forall q c, nth_error phs q = Some c -> ph_var c = Some FErr -> gen_bad (ph_ty c).
+
+Lemma typed_unique phs heap f t u : typed phs heap f t -> typed phs heap f u -> t = u.
+Proof. intros H1 H2. apply typed_fty in H1. apply typed_fty in H2. congruence. Qed.
+
+Lemma witem_bad_back phs heap phs' heap' w :
+  ext phs heap phs' heap' -> witem_ok phs heap w -> witem_bad phs' heap' w -> witem_bad phs heap w.
+Proof.
+  intros He Hok H. destruct w as [t v|f v|p v]; simpl in *; auto.
+  - destruct Hok as [t Ht]. destruct H as (u & Hu & Hb). exists t. split; auto.
+    rewrite (typed_unique _ _ _ _ _ (typed_ext _ _ _ _ _ _ He Ht) Hu). exact Hb.
+  - destruct Hok as (c & Hc & Hs). destruct H as (c' & Hc' & Hb). rewrite (stable_ext _ _ _ _ _ _ He Hc Hs) in Hc'.
+    inversion Hc'; subst. eauto.
+Qed.
+
+Lemma bad_thread_ext phs heap phs' heap' th :
+  ext phs heap phs' heap' -> thread_ok phs heap th -> bad_thread phs heap th -> bad_thread phs' heap' th.
+Proof.
+  intros He [_ Hok] [Hd H]. split; auto. destruct (th_cur th) as [[t v]|]; auto.
+  destruct H as (H1 & H2 & H3). destruct Hok as (_ & Hw & _). split; [|split]; auto.
+  intros w Hin Hb. apply (H1 w Hin). eapply witem_bad_back; eauto. rewrite Forall_forall in Hw. auto.
+Qed.
+
+Lemma job_bad_ret th rest f : th_done (ret th rest f) = th_done th /\ th_cur (ret th rest f) = th_cur th.
+Proof. unfold ret. destruct rest; [destruct (th_work th) as [|[] ?]|]; auto. Qed.
+
+Lemma tstep_bad m phs heap th th' sh :
+  (forall t f, In (t, f) m -> typed phs heap f t) ->
+  (forall g c, nth_error heap g = Some c -> Forall2 (typed phs heap) (clo_kids c) (kidtypes tt (clo_ty c))) ->
+  (forall p c, nth_error phs p = Some c -> cell_ok heap c) ->
+  thread_ok phs heap th -> bad_thread phs heap th -> bad_cells phs ->
+  tstep tt m phs heap th = Some (th', sh) ->
+  ext phs heap (sh_phs sh) (sh_heap sh) ->
+  bad_thread (sh_phs sh) (sh_heap sh) th' /\ bad_cells (sh_phs sh).
+Proof.
+  intros Hmap Hheap Hcells Hth [Hd Hb] Hbc H He.
+  assert (Hupd : forall p c0 c1, nth_error phs p = Some c0 -> ph_ty c1 = ph_ty c0 ->
+                 (ph_var c1 = Some FErr -> ph_var c0 = Some FErr \/ gen_bad (ph_ty c0)) -> bad_cells (upd phs p c1)).
+  { intros p c0 c1 Hp Hty Hv q c Hq Hc. destruct (Nat.eq_dec p q) as [<-|Hn].
+    - rewrite nth_error_upd_eq in Hq by (eapply nth_error_Some_lt; eauto). inversion Hq; subst. rewrite Hty.
+      destruct (Hv Hc) as [Hv'|Hg]; eauto.
+    - rewrite nth_error_upd_neq in Hq by auto. eauto. }
+  assert (Hpanic : forall th2 phs' heap', th_cur th2 = th_cur th -> th_done th2 = th_done th ->
+                   (forall t v, th_cur th = Some (t, v) -> job_bad t v) -> bad_thread phs' heap' (panic th2)).
+  { intros th2 phs' heap' E1 E2 Hj. unfold panic. rewrite E1, E2. destruct (th_cur th) as [[t v]|] eqn:Ec; split; simpl; auto.
+    intros jr Hin Hr. apply in_app_or in Hin. destruct Hin as [Hin|[<-|[]]]; auto; try (simpl; apply (Hj t v); reflexivity). }
+  unfold tstep in H. destruct (th_stack th) as [|fr rest] eqn:E.
+  - destruct (th_work th) as [|wi w] eqn:Ew.
+    + destruct (th_cur th) as [j|] eqn:Ec; [|destruct (th_jobs th) as [|[t v] js]; [discriminate|]]; inversion H; subst; clear H; simpl.
+      * split; auto. split; simpl; auto. intros jr Hin Hr. apply in_app_or in Hin. destruct Hin as [Hin|[<-|[]]]; auto. discriminate.
+      * split; auto. split; simpl; auto. split; [|split; intros ? []].
+        intros w [<-|[]] Hw. exact Hw.
+    + destruct (thread_ok_nostack_inv _ _ _ _ _ Hth E Ew) as (t & v & Ec & Hw & _ & _). rewrite Ec in Hb.
+      destruct Hb as (B1 & B2 & B3). rewrite Ew in Hw, B1. inversion Hw as [|? ? Hwi Hw']; subst.
+      destruct wi as [t0 v0|f v0|p v0].
+      * (* a cache request starts *)
+        inversion H; subst; clear H. simpl. split; auto. split; simpl; auto. rewrite Ec. rewrite Ew. split; [exact B1|]. split.
+        -- intros fr [<-|[]] Hg. simpl in Hg. apply (B1 (WGet t0 v0)); [left; reflexivity|]. left. exact Hg.
+        -- intros fr [<-|[]] [].
+      * destruct f as [g|p|]; [| |destruct Hwi as [t1 []]].
+        -- (* a generated function runs *)
+           destruct v0 as [subs]. destruct Hwi as [u (c & Hg & Hu)]. rewrite Hg in H. inversion H; subst; clear H. simpl.
+           split; auto. split; simpl; auto. rewrite Ec. split; [|split; intros ? []].
+           assert (Hold : job_bad (clo_ty c) (V subs) -> job_bad t v).
+           { intro Hj. apply (B1 (WCall (FGen g) (V subs))); [left; reflexivity|]. exists (clo_ty c). split; auto. simpl. eauto. }
+           intros w0 Hin Hbad. apply in_app_or in Hin. destruct Hin as [Hin|Hin]; [|apply (B1 w0); [right; exact Hin | exact Hbad]].
+           unfold expand in Hin. apply in_flat_map in Hin. destruct Hin as ([sl v1] & Hsub & Hin). simpl in Hin.
+           apply Hold. right. destruct sl as [i|t'].
+           ++ pose proof (Forall2_nth_error _ _ _ i (Hheap _ _ Hg)) as Hn.
+              destruct (nth_error (clo_kids c) i) as [k|] eqn:Ek; [|contradiction].
+              destruct (nth_error (kidtypes tt (clo_ty c)) i) as [ct|] eqn:Ect; [|contradiction].
+              destruct Hin as [<-|[]]. destruct Hbad as (u' & Hu' & Hj). rewrite <- (typed_unique _ _ _ _ _ Hn Hu') in Hj.
+              eapply cb_kid; eauto.
+           ++ destruct Hin as [<-|[]]. eapply cb_dyn; eauto.
+        -- (* Wait returns *)
+           destruct Hwi as [u (c & Hp & Hu & Hpub)]. rewrite Hp in H.
+           destruct (ph_cnt c =? 0); [|discriminate]. inversion H; subst; clear H. simpl.
+           split; auto. split; simpl; auto. rewrite Ec. rewrite E. split; [|split; intros ? []].
+           intros w0 [<-|Hin] Hbad; [|apply (B1 w0); [right; exact Hin | exact Hbad]].
+           destruct Hbad as (c' & Hc' & Hj). rewrite Hp in Hc'. inversion Hc'; subst.
+           apply (B1 (WCall (FPh p) v0)); [left; reflexivity|]. exists (ph_ty c'). split; auto. simpl. eauto.
+      * (* the plain read after Wait *)
+        destruct Hwi as (c & Hp & Hpub & Hz & Hv). rewrite Hp in H.
+        destruct (ph_var c) as [f|] eqn:Ev; [|congruence].
+        assert (Hold : job_bad (ph_ty c) v0 -> job_bad t v).
+        { intro Hj. apply (B1 (WRead p v0)); [left; reflexivity|]. simpl. eauto. }
+        destruct (Hcells _ _ Hp) as (_ & _ & Hc3). destruct (Hc3 _ Ev) as [-> | (g & k & -> & Hg & Hk)].
+        -- inversion H; subst; clear H. simpl. split; auto. apply Hpanic; auto.
+           intros t1 v1 E1. rewrite Ec in E1. inversion E1; subst. apply Hold. left. eapply Hbc; eauto.
+        -- inversion H; subst; clear H. simpl. split; auto. split; simpl; auto. rewrite Ec. rewrite E. split; [|split; intros ? []].
+           intros w0 [<-|Hin] Hbad; [|apply (B1 w0); [right; exact Hin | exact Hbad]].
+           destruct Hbad as (u & (k' & Hg' & Hu) & Hj). apply Hold. rewrite Hg in Hg'. inversion Hg'; subst. rewrite <- Hk. exact Hj.
+  - destruct (thread_ok_stack_inv _ _ _ _ _ Hth E) as (t & v & t' & v' & w & Ec & Ew & Hs & Hw & _ & _).
+    rewrite Ec in Hb. destruct Hb as (B1 & B2 & B3). rewrite E in B2, B3.
+    pose proof (stack_ok_frames _ _ _ _ Hs) as Hfrs. inversion Hfrs as [|? ? Hfr Hfrs']; subst.
+    assert (B1' : forall w0, In w0 (th_work th) -> witem_bad (sh_phs sh) (sh_heap sh) w0 -> job_bad t v).
+    { intros w0 Hin Hbad. apply (B1 w0 Hin). eapply witem_bad_back; eauto. rewrite Forall_forall in Hw. auto. }
+    assert (Htop : forall fr', f_ty fr' = f_ty fr -> (is_cleanup (f_pc fr') -> gen_bad (f_ty fr)) ->
+                   bad_thread (sh_phs sh) (sh_heap sh) (with_stack th (fr' :: rest))).
+    { intros fr' Hty Hcl. split; simpl; auto. rewrite Ec. split; [exact B1'|]. split.
+      - intros fr0 [<-|Hin] Hg; [apply (B2 fr); [left; reflexivity | rewrite <- Hty; exact Hg] | apply (B2 fr0); [right; exact Hin | exact Hg]].
+      - intros fr0 [<-|Hin] Hc; [rewrite Hty; auto | apply (B3 fr0); [right; exact Hin | exact Hc]]. }
+    assert (Hretb : forall f, typed phs heap f (f_ty fr) -> bad_thread (sh_phs sh) (sh_heap sh) (ret th rest f)).
+    { intros f Hf. unfold ret. destruct rest as [|parent rest'].
+      - rewrite Ew. split; simpl; auto. rewrite Ec. split; [|split; intros ? []].
+        intros w0 [<-|Hin] Hbad; [|apply B1'; [rewrite Ew; right; exact Hin | exact Hbad]].
+        destruct Hbad as (u & Hu & Hj). apply (B1 (WGet t' v')); [rewrite Ew; left; reflexivity|]. simpl.
+        simpl in Hs. destruct Hs as [_ Hs]. rewrite Hs in Hf.
+        rewrite (typed_unique _ _ _ _ _ (typed_ext _ _ _ _ _ _ He Hf) Hu). exact Hj.
+      - split; simpl; auto. rewrite Ec. split; [exact B1'|]. split.
+        + intros fr0 [<-|Hin] Hg; [apply (B2 parent); [right; left; reflexivity | exact Hg] | apply (B2 fr0); [right; right; exact Hin | exact Hg]].
+        + intros fr0 [<-|Hin] Hc; [apply (B3 parent); [right; left; reflexivity | exact Hc] | apply (B3 fr0); [right; right; exact Hin | exact Hc]]. }
+    unfold frame_ok in Hfr. destruct (f_pc fr) eqn:Epc.
+    + (* Load *)
+      destruct (lookup m (f_ty fr)) as [f|] eqn:El.
+      * inversion H; subst; clear H. simpl in *. split; auto. apply Hretb. apply Hmap. apply lookup_In; auto.
+      * inversion H; subst; clear H. simpl in *. split.
+        -- apply Htop; simpl; auto. intros [].
+        -- intros q c Hq Hv. destruct (Nat.lt_ge_cases q (length phs)) as [Hl|Hl].
+           ++ rewrite nth_error_app1 in Hq by exact Hl. eauto.
+           ++ rewrite nth_error_app2 in Hq by exact Hl. destruct (q - length phs)%nat as [|[|k]]; simpl in Hq; try discriminate.
+              inversion Hq; subst. discriminate.
+    + (* Add *)
+      destruct Hfr as (_ & c & Hc & _). rewrite Hc in H. inversion H; subst; clear H. simpl in *. split.
+      * apply Htop; simpl; auto. intros [].
+      * eapply Hupd; eauto.
+    + (* LoadOrStore *)
+      destruct Hfr as (_ & c & Hc & _). destruct (lookup m (f_ty fr)) as [f|] eqn:El.
+      * inversion H; subst; clear H. simpl in *. split; auto. apply Hretb. apply Hmap. apply lookup_In; auto.
+      * rewrite Hc in H. inversion H; subst; clear H. simpl in *. split.
+        -- apply Htop; simpl; auto. intros [].
+        -- eapply Hupd; eauto.
+    + (* generating *)
+      destruct (is_bad tt (f_ty fr)) eqn:Eb; [|destruct (f_todo fr) as [|k todo] eqn:Etodo]; inversion H; subst; clear H; simpl in *.
+      * split; auto. apply Htop; simpl; auto. intros _. apply gb_here; auto.
+      * split; auto. apply Htop; simpl; auto. intros [].
+      * split; auto. split; simpl; auto. rewrite Ec. split; [exact B1'|]. split.
+        -- intros fr0 [<-|Hin] Hg; [|apply (B2 fr0 Hin Hg)]. simpl in Hg. apply (B2 fr); [left; reflexivity|].
+           destruct Hfr as [_ (tys & Hk & _)]. eapply gb_kid; eauto. rewrite Hk. rewrite Etodo. apply in_or_app. right. left. reflexivity.
+        -- intros fr0 [<-|Hin] Hc; [destruct Hc | apply (B3 fr0 Hin Hc)].
+    + (* the plain write *)
+      destruct Hfr as ((c & Hc & _) & _). rewrite Hc in H. inversion H; subst; clear H. simpl in *. split.
+      * apply Htop; simpl; auto. intros [].
+      * eapply Hupd; eauto. simpl. discriminate.
+    + (* Done *)
+      destruct Hfr as (c & Hc & _). rewrite Hc in H. inversion H; subst; clear H. simpl in *. split.
+      * apply Htop; simpl; auto. intros [].
+      * eapply Hupd; eauto.
+    + (* Store *)
+      destruct Hfr as (c & Hc & _ & _ & (g & Hv & Hf) & _). rewrite Hc in H. rewrite Hv in H. inversion H; subst; clear H. simpl in *.
+      split; auto.
+    + (* Delete *)
+      inversion H; subst; clear H. simpl in *. split; auto. apply Htop; simpl; auto. intros _. apply (B3 fr); [left; reflexivity | rewrite Epc; exact I].
+    + (* the write of the error function *)
+      destruct Hfr as (c & Hc & Hty & _). rewrite Hc in H. inversion H; subst; clear H. simpl in *.
+      assert (Hg : gen_bad (f_ty fr)) by (apply (B3 fr); [left; reflexivity | rewrite Epc; exact I]).
+      split.
+      * apply Htop; simpl; auto.
+      * eapply Hupd; eauto. intros _. right. rewrite Hty. exact Hg.
+    + (* Done on the failure path *)
+      destruct Hfr as (c & Hc & _). rewrite Hc in H. inversion H; subst; clear H. simpl in *.
+      assert (Hg : gen_bad (f_ty fr)) by (apply (B3 fr); [left; reflexivity | rewrite Epc; exact I]).
+      split; [|eapply Hupd; eauto].
+      destruct rest as [|parent rest'].
+      * apply Hpanic; auto. intros t1 v1 E1. rewrite Ec in E1. inversion E1; subst. apply (B2 fr); [left; reflexivity | exact Hg].
+      * simpl in Hs. destruct Hs as (_ & Hpp & (more & Htodo) & Hpar & _).
+        assert (Hgp : gen_bad (f_ty parent)).
+        { unfold frame_ok in Hpar. rewrite Hpp in Hpar. destruct Hpar as [_ (tys & Hk & _)].
+          eapply gb_kid; eauto. rewrite Hk. rewrite Htodo. apply in_or_app. right. left. reflexivity. }
+        split; simpl; auto. rewrite Ec. split; [exact B1'|]. split.
+        -- intros fr0 [<-|Hin] Hg0; [apply (B2 parent); [right; left; reflexivity | exact Hg0] | apply (B2 fr0); [right; right; exact Hin | exact Hg0]].
+        -- intros fr0 [<-|Hin] Hc0; [exact Hgp | apply (B3 fr0); [right; right; exact Hin | exact Hc0]].
+Qed.
+
+Record BadInv (s : state) : Prop := mkBadInv {
+  bi_threads : Forall (bad_thread (st_phs s) (st_heap s)) (st_threads s);
+  bi_cells : bad_cells (st_phs s)
+}.
+
+Theorem step_BadInv s i s' : Inv s -> BadInv s -> step tt s i = Some s' -> BadInv s'.
+Proof.
+  intros [Hm Hh Hc Ht Ho] [B1 B2] H. unfold step in H.
+  destruct (nth_error (st_threads s) i) as [th|] eqn:Ei; [|discriminate].
+  destruct (tstep tt (st_map s) (st_phs s) (st_heap s) th) as [[th' sh]|] eqn:Est; [|discriminate].
+  inversion H; subst; clear H.
+  destruct (nth_error_split_upd _ _ _ th' Ei) as (l1 & l2 & El & Hlen & Eu).
+  rewrite El in Ht, Ho, B1. simpl. rewrite Eu.
+  apply Forall_app in Ht. destruct Ht as [Ht1 Ht2]. inversion Ht2 as [|? ? Hth Ht2']; subst.
+  apply Forall_app in B1. destruct B1 as [Bl1 Bl2]. inversion Bl2 as [|? ? Bth Bl2']; subst.
+  rewrite owned_app in Ho. simpl in Ho. fold (owned l2) in Ho.
+  assert (Hnd : NoDup (owned_frames (th_stack th))).
+  { apply NoDup_app_iff in Ho. destruct Ho as (_ & Ho & _). apply NoDup_app_iff in Ho. tauto. }
+  pose proof (tstep_out _ _ _ Hm Hh Hc _ _ _ Hth Hnd Est) as [He _ _ _ _ _ _ _].
+  destruct (tstep_bad _ _ _ _ _ _ Hm Hh Hc Hth Bth B2 Est He) as [Bth' B2'].
+  constructor; simpl; auto.
+  apply Forall_app. split.
+  - rewrite Forall_forall in *. intros th2 Hin. eapply bad_thread_ext; eauto.
+  - constructor; auto. rewrite Forall_forall in *. intros th2 Hin. eapply bad_thread_ext; eauto.
+Qed.
+
+Theorem reachable_BadInv jobs sched : BadInv (run tt (init jobs) sched).
+Proof.
+  assert (G : forall s, Inv s -> BadInv s -> BadInv (run tt s sched)).
+  { induction sched as [|i r IH]; intros s HI HB; simpl; auto.
+    destruct (step tt s i) eqn:E; auto. apply IH; [eapply step_Inv | eapply step_BadInv]; eauto. }
+  apply G; [apply init_Inv|]. constructor; simpl.
+  - apply Forall_forall. intros th Hin. apply in_map_iff in Hin. destruct Hin as (js & <- & _). split; simpl; auto. contradiction.
+  - intros [|q] c Hq; discriminate.
+Qed.
+
+(* a call ends in an error only if its type or its value involves an unsupported type *)
+Theorem failures_are_genuine jobs sched th jr :
+  In th (st_threads (run tt (init jobs) sched)) -> In jr (th_done th) -> snd jr = RPanic ->
+  job_bad (fst (fst jr)) (snd (fst jr)).
+Proof.
+  intros Hth Hjr Hr. pose proof (reachable_BadInv jobs sched) as [B _]. rewrite Forall_forall in B.
+  destruct (B _ Hth) as [Hd _]. auto.
+Qed.
+
+(* so: a call that involves no unsupported type returns the run-alone trace, whatever else runs *)
+Theorem good_jobs_return_reference jobs sched th jr :
+  In th (st_threads (run tt (init jobs) sched)) -> In jr (th_done th) ->
+  ~ job_bad (fst (fst jr)) (snd (fst jr)) ->
+  exists kinds, snd jr = ROk (ref tt (snd (fst jr)) (fst (fst jr))) kinds.
+Proof.
+  intros Hth Hjr Hn. destruct (results_match jobs sched th jr Hth Hjr) as [Hp|H]; auto.
+  exfalso. apply Hn. eapply failures_are_genuine; eauto.
 Qed.
 
 End WithTable.
